@@ -44,6 +44,17 @@ end assoc
 routes belong to the same listener -/
 def UniqueOwner (rs : List Route) (l : Lid) : Prop := rs ≠ [] ∧ ∀ rt ∈ rs, rt.lid = l
 
+theorem uniqueOwner_unique (rs : List Route) (a b : Lid) (ha : UniqueOwner rs a) (hb : UniqueOwner rs b) : a = b := by
+  obtain ⟨hne, h1⟩ := ha
+  cases rs with
+  | nil => exact absurd rfl hne
+  | cons rt rest => exact (h1 rt (by simp)).symm.trans (hb.2 rt (by simp))
+
+theorem run_append (r : Reg) (a b : List Op) : run r (a ++ b) = run (run r a) b := by
+  induction a generalizing r with
+  | nil => rfl
+  | cons o os ih => simp [run, ih]
+
 theorem uniqueLoop_some_start (l : Lid) (rs : List Route) :
     (uniqueLoop (some l) rs = some l ∧ ∀ rt ∈ rs, rt.lid = l) ∨
     (uniqueLoop (some l) rs = none ∧ ∃ rt ∈ rs, rt.lid ≠ l) := by
